@@ -17,10 +17,12 @@ import copy
 from . import core, schedules, workloads
 from .runner import Check
 
-KINDS = ["Error", "MyErr", "IndexError", "RuntimeError", "PropertyError", "IoError", "StackOverflow"]
+KINDS = ["Error", "MyErr", "IndexError", "RuntimeError", "PropertyError", "IoError", "StackOverflow", "OperandError"]
 # the class an injected error of each kind has (unbounded recursion is reported as a RuntimeError)
 CLASS_OF = {kind: kind for kind in KINDS}
 CLASS_OF["StackOverflow"] = "RuntimeError"
+# an operator applied to operands of the wrong type (the instruction has already popped its operands when it fails)
+CLASS_OF["OperandError"] = "RuntimeError"
 FILTERS = ["Error", "Error", "Error", "MyErr", "IndexError", "RuntimeError", "PropertyError", "IoError"]
 DATA = "/sim/data.txt"
 
@@ -156,6 +158,7 @@ def render(funs, target, kind):
         "PropertyError": "[1].nothing();",
         "IoError": "nil;",
         "StackOverflow": "overflow(0);",
+        "OperandError": "1 + nil;",
     }[kind]
     lines.append("fn overflow(n) { overflow(n + 1) }")
     # every fault point performs one read of the simulated file system; in the IoError kind that read is
@@ -379,7 +382,7 @@ class C04(Check):
             "IndexError, RuntimeError, PropertyError, IoError), handlers that contain fault points themselves, exits by completion, "
             "break, continue and return through several tries, and callbacks run by native iterators (each/map/filter/reduce/all and "
             "the for protocol over a lazy map); for every program every dynamic fault point (up to 40) is enumerated with a seeded "
-            "subset of the 7 error kinds (all 7 in the thorough tier); kind IoError is a simulator-injected failure of the n-th "
+            "subset of the 8 error kinds (all 8 in the thorough tier); kind IoError is a simulator-injected failure of the n-th "
             "file system read; distinct = distinct (program, fault point, kind); non-trivial = the injected error was caught by a "
             "handler of the program or crossed at least one frame")
     assumptions = [
